@@ -20,11 +20,12 @@ int  vk_count_fds(void);             // entries of /proc/self/fd
 // once the way Linux answers a time-out (0, all sets cleared / revents 0, the timeval counted down to zero) and the
 // silence shrinks by the time-out asked for; a call whose time-out reaches the end of the silence (or has none) goes to
 // the kernel.  A caller that keeps asking with a zero time-out never gets there: after VK_SPIN_LIMIT such calls in a row
-// the recorder notes a spin and fails the call with EBADF so that the loop ends.
+// the recorder notes a spin and fails the call with EBADF so that the loop ends.  A caller that has been given
+// VK_REARM_ENOUGH time-out answers to calls with a real (non-zero) time-out is let through to the kernel.
 void vk_pause(long ms);
 int  vk_spun(void);                  // a spin was noted since the last vk_pause (the flag is cleared by vk_pause)
 long vk_timeouts(void);              // time-out answers given since the last vk_pause
-enum { VK_SPIN_LIMIT = 20000 };
+enum { VK_SPIN_LIMIT = 20000, VK_REARM_ENOUGH = 2000 };
 
 #ifdef __cplusplus
 }
